@@ -40,9 +40,12 @@ def run(ctx):
             r = cc.tlc(ctx, tag + "-design", conns, lim, False, True, ["TypeOK", "Limits"] + book, False)
             if r.status != "ok":
                 ctx.infra("design model (Save re-tests the limits) does not satisfy its invariants: %s %s" % (r.violated, r.errors[:2]))
-            # -- MC 2: the code as it is, fine-grained: candidate counterexample (never a verdict by itself)
-            r = cc.tlc(ctx, tag + "-coded-fine", conns, lim, True, True, ["TypeOK", "Limits"] + book, False, workers=1)
-            if r.status == "violation" and r.violated == "Limits":
+            # -- MC 2: the code as it is, fine-grained: candidate counterexample (never a verdict by itself); in the quick
+            #    tier it is skipped once the deviation is fixed (the design model above is then the model of the code)
+            r = None if (fixed and not ctx.thorough) else cc.tlc(ctx, tag + "-coded-fine", conns, lim, True, True, ["TypeOK", "Limits"] + book, False, workers=1)
+            if r is None:
+                pass
+            elif r.status == "violation" and r.violated == "Limits":
                 model_notes.append("%s: TLC finds a Limits counterexample in the as-coded model (%d states explored before it)" % (tag, r.distinct))
             elif r.status == "ok":
                 model_notes.append("%s: as-coded model satisfies Limits" % tag)
